@@ -213,6 +213,18 @@ def d1_record(ctx, idx, st):
         ctx.extra['grammar'] = {'terms': len(g.nodes()), 'FIRST(atom)': G.show_chars(g.first(atom)),
                                 'FOLLOW(variable)': G.show_chars(g.follow(elems['variable'])),
                                 'recording_elements': {k: t.describe(1) for k, t in elems.items()}}
+        if not any(a.kind == 'method' for t_, a in g.action_sites()):
+            # no recording parse action at all: the usage may be read off the finished tree by a visitor instead
+            vis = find_visitor(idx)
+            if vis is None:
+                r.undecided('recording mechanism', 'the grammar has no recording parse action and no tree visitor feeding the '
+                            'MathExpression was recognised: the mechanism that collects the used names was not found', gloc(g, atom))
+                return
+            st['mode'] = 'visitor'
+            d1_visitor(r, idx, g, elems, vis)
+            r.floor = min(r.floor, r.n)
+            _metadata_names(r, idx)
+            return
         hand, rp, init, ctor = handoff(idx)
         st['handoff'] = hand
         fields = {}
@@ -282,30 +294,228 @@ def d1_record(ctx, idx, st):
                                                                '/'.join(a.split('_')[0] for a in attrs)),
                     mloc, expected=KINDS[kind], found='/'.join(attrs))
         st['fields'] = {k: v[0][1] for k, v in fields.items() if v}
-        # eval reports each attribute under its own name
-        ev = idx.func(ME + '.eval')
-        md = lib.calls_named(ev.node, 'EvalMetaData')
-        if len(md) != 1:
-            raise AnalysisError('MathExpression.eval: expected one EvalMetaData construction')
-        nt = idx.module(MOD).assigns.get('EvalMetaData', [])
-        names = None
-        if len(nt) == 1 and isinstance(nt[0], ast.Call) and nf.callee_name(nt[0]) == 'namedtuple' and len(nt[0].args) == 2:
-            names = nf.const_value(nt[0].args[1])
-        if not isinstance(names, list):
-            raise AnalysisError('EvalMetaData is not a namedtuple with a literal field list')
-        me = ev.params[0]
-        for k in sorted(SETS):
-            v = lib.get_kw(md[0], k, names.index(k) if k in names else None)
-            good = v is not None and isinstance(v, ast.Attribute) and isinstance(v.value, ast.Name) and v.value.id == me and v.attr == k
-            r.check(good, 'MathExpression.eval: EvalMetaData.%s' % k, 'self.%s' % k,
-                    'evaluator()[1].%s is built from `%s` instead of self.%s' % (k, short(v) if v is not None else 'nothing', k),
-                    lib.loc(ev, md[0]), expected='self.%s' % k, found=short(v) if v is not None else None)
+        _metadata_names(r, idx)
+
+
+def _metadata_names(r, idx):
+    # eval reports each attribute under its own name
+    ev = idx.func(ME + '.eval')
+    md = lib.calls_named(ev.node, 'EvalMetaData')
+    if len(md) != 1:
+        raise AnalysisError('MathExpression.eval: expected one EvalMetaData construction')
+    nt = idx.module(MOD).assigns.get('EvalMetaData', [])
+    names = None
+    if len(nt) == 1 and isinstance(nt[0], ast.Call) and nf.callee_name(nt[0]) == 'namedtuple' and len(nt[0].args) == 2:
+        names = nf.const_value(nt[0].args[1])
+    if not isinstance(names, list):
+        raise AnalysisError('EvalMetaData is not a namedtuple with a literal field list')
+    me = ev.params[0]
+    for k in sorted(SETS):
+        v = lib.get_kw(md[0], k, names.index(k) if k in names else None)
+        good = v is not None and isinstance(v, ast.Attribute) and isinstance(v.value, ast.Name) and v.value.id == me and v.attr == k
+        r.check(good, 'MathExpression.eval: EvalMetaData.%s' % k, 'self.%s' % k,
+                'evaluator()[1].%s is built from `%s` instead of self.%s' % (k, short(v) if v is not None else 'nothing', k),
+                lib.loc(ev, md[0]), expected='self.%s' % k, found=short(v) if v is not None else None)
+
+
+# ------------------------------------------------------------------ D1, visitor form
+def find_visitor(idx):
+    """raw_parse builds `u = C(tree)` and hands u.<attr> to MathExpression for the three usage parameters, C being a class
+    of the package with a recursive method visiting parse-tree nodes.  Returns a dict or None."""
+    rp = idx.func(MP + '.raw_parse')
+    init = idx.func(ME + '.__init__')
+    calls = [c for c in walk_own(rp.node) if isinstance(c, ast.Call) and nf.callee_name(c) == 'MathExpression']
+    if len(calls) != 1:
+        return None
+    p2a = {}
+    for n in walk_own(init.node):
+        if isinstance(n, ast.Assign) and len(n.targets) == 1 and isinstance(n.targets[0], ast.Attribute) \
+                and isinstance(n.value, ast.Name) and n.value.id in init.params:
+            p2a[n.value.id] = n.targets[0].attr
+    attr_map = {}          # visitor attribute -> MathExpression attribute
+    holder = None
+    for pname, arg in map_args(init, calls[0]).items():
+        if arg is None or p2a.get(pname) not in SETS:
+            continue
+        a = _resolve_local(lib.inline_locals(arg, rp.node), rp.node)
+        if isinstance(a, ast.Attribute):
+            base = _resolve_local(a.value, rp.node) if isinstance(a.value, ast.Name) else a.value
+            if isinstance(base, ast.Call):
+                if holder is not None and unparse(holder) != unparse(base):
+                    return None
+                holder = base
+                attr_map[a.attr] = p2a[pname]
+    if holder is None or len(attr_map) != 3:
+        return None
+    originals = [c for c in walk_own(rp.node) if isinstance(c, ast.Call) and nf.equal(nf.canon(lib.inline_locals(c, rp.node)), nf.canon(holder))]
+    if len(originals) != 1:
+        return None
+    targets, how = idx.resolve_call(rp, originals[0])
+    cis = [t[1] for t in targets if isinstance(t, tuple) and t[0] == 'class']
+    if len(cis) != 1:
+        return None
+    ci = cis[0]
+    cinit = idx.lookup(ci, '__init__')
+    if cinit is None:
+        return None
+    recursive = [m for m in ci.methods.values() if any(
+        isinstance(x, ast.Call) and isinstance(x.func, ast.Attribute) and x.func.attr == m.name
+        and isinstance(x.func.value, ast.Name) and m.params and x.func.value.id == m.params[0] for x in ast.walk(m.node))]
+    if len(recursive) != 1 or len(recursive[0].params) != 2:
+        return None
+    visit = recursive[0]
+    # the constructor starts the walk (directly, or through copies of the visitor's body the normaliser inlined there)
+    if not any(isinstance(x, ast.Call) and isinstance(x.func, ast.Attribute) and x.func.attr == visit.name for x in ast.walk(cinit.node)):
+        return None
+    return {'cls': ci, 'visit': visit, 'attr_map': attr_map, 'rp': rp}
+
+
+def _visitor_branch(idx, vis, kind):
+    """What the visitor does for a node whose name is `kind`: (records [(attr, expr)], descends 'all' | {child indices} | None)
+    or None when the guards cannot be decided."""
+    v = vis['visit']
+    me, node = v.params
+    ci = vis['cls']
+
+    def strset(e):
+        if isinstance(e, ast.Attribute) and isinstance(e.value, ast.Name) and e.value.id in (me, ci.name):
+            k_, val = idx.lookup_attr(ci, e.attr)
+            e = val
+        elif isinstance(e, ast.Name):
+            vals = ci.module.assigns.get(e.id, [])
+            e = vals[0] if len(vals) == 1 else None
+        if isinstance(e, (ast.Tuple, ast.List, ast.Set)) and all(isinstance(x, ast.Constant) and isinstance(x.value, str) for x in e.elts):
+            return {x.value for x in e.elts}
+        if isinstance(e, ast.Call) and nf.callee_name(e) in ('frozenset', 'set', 'tuple') and len(e.args) == 1:
+            return strset(e.args[0])
+        return None
+
+    def is_name(e):
+        return any(nf.match(p % node, e) is not None for p in ('%s.getName()', '%s.get_name()'))
+
+    def ev(g_):
+        if isinstance(g_, ast.BoolOp):
+            vals = [ev(x) for x in g_.values]
+            if isinstance(g_.op, ast.And):
+                return False if False in vals else (None if None in vals else True)
+            return True if True in vals else (None if None in vals else False)
+        if isinstance(g_, ast.UnaryOp) and isinstance(g_.op, ast.Not):
+            x = ev(g_.operand)
+            return None if x is None else not x
+        if isinstance(g_, ast.Compare) and len(g_.ops) == 1:
+            l, rgt, op = g_.left, g_.comparators[0], g_.ops[0]
+            if isinstance(op, (ast.Eq, ast.NotEq)):
+                if is_name(rgt) and isinstance(l, ast.Constant):
+                    l, rgt = rgt, l
+                if is_name(l) and isinstance(rgt, ast.Constant):
+                    return (rgt.value == kind) == isinstance(op, ast.Eq)
+            if isinstance(op, (ast.In, ast.NotIn)) and is_name(l):
+                ss = strset(rgt)
+                if ss is not None:
+                    return (kind in ss) == isinstance(op, ast.In)
+        return None
+    for p in nf.decision_paths(v.node.body):
+        vals = [ev(g_) for g_ in p.guards]
+        if any(x is False for x in vals):
+            continue
+        if any(x is None for x in vals):
+            return None
+        records, descends = [], set()
+        for eff in p.effects:
+            for n in ast.walk(eff):
+                if isinstance(n, ast.Call) and isinstance(n.func, ast.Attribute):
+                    f = n.func
+                    if f.attr in ('add', 'update') and isinstance(f.value, ast.Attribute) and isinstance(f.value.value, ast.Name) \
+                            and f.value.value.id == me and n.args:
+                        records.append((f.value.attr, f.attr, n.args[0]))
+                    elif f.attr == v.name and isinstance(f.value, ast.Name) and f.value.id == me and n.args:
+                        a = n.args[0]
+                        if isinstance(a, ast.Subscript) and isinstance(a.value, ast.Name) and a.value.id == node \
+                                and isinstance(a.slice, ast.Constant) and isinstance(a.slice.value, int):
+                            descends.add(a.slice.value)
+                        else:
+                            loop = eff if isinstance(eff, ast.For) else None
+                            if loop is not None and isinstance(loop.iter, ast.Name) and loop.iter.id == node and isinstance(a, ast.Name) \
+                                    and any(isinstance(t, ast.Name) and t.id == a.id for t in ast.walk(loop.target)):
+                                descends = 'all'
+                            else:
+                                return None
+                    if descends == 'all':
+                        break
+            if descends == 'all':
+                continue
+        return records, (descends if descends else None)
+    return [], None      # no branch is taken for this kind: the node is ignored
+
+
+def d1_visitor(r, idx, g, elems, vis):
+    """The usage sets are collected by a tree visitor after the parse: every kind of node the grammar produces must be
+    handled -- the three recording kinds record their own token into the right set, every other kind is descended into."""
+    v, ci, attr_map = vis['visit'], vis['cls'], vis['attr_map']
+    where = v.loc
+    if getattr(idx, 'unreviewed', None):
+        # the visitor method is analysed right here (its decision paths per node kind): it is reviewed
+        idx.unreviewed = [q for q in idx.unreviewed if q != v.qualname]
+    produced = {}
+    for name, term, how in g.groups():
+        if name is not None:
+            produced.setdefault(name, term)
+    leaf = {elems['variable'].name: ('variable', 'variables_used'), elems['function'].name: ('function', 'functions_used')}
+    number_name = None
+    for name, term in produced.items():
+        if term.kind == 'group' and C03.classify_atom(g, term) == 'number':
+            number_name = name
+    for kind in sorted(produced):
+        res = _visitor_branch(idx, vis, kind)
+        construct = "%s.%s: '%s' nodes" % (ci.name, v.name, kind)
+        if res is None:
+            r.undecided(construct, 'the branch taken for this kind of node could not be determined', where)
+            continue
+        records, descends = res
+        if kind in leaf or kind == number_name:
+            role, want = leaf.get(kind, ('number', 'suffixes_used'))
+            got = sorted({attr_map.get(a, a) for a, m, e in records})
+            if not records:
+                r.violation(construct, 'the visitor records nothing for %s nodes: %ss occurring in a formula are never reported'
+                            % (kind, {'number': 'suffixe'}.get(role, role)), where)
+                continue
+            if got != [want]:
+                r.violation(construct, 'the %s of a %s node is recorded into %s instead of %s' % (
+                    'suffix' if role == 'number' else 'name', kind, '/'.join(got), want), where, expected=want, found='/'.join(got))
+                continue
+            a_, m_, e_ = records[0]
+            good = (role != 'number' and m_ == 'add' and nf.match('%s[0]' % v.params[1], e_) is not None) or \
+                   (role == 'number' and ((m_ == 'update' and nf.match('%s[1:]' % v.params[1], e_) is not None)
+                                          or (m_ == 'add' and nf.match('%s[1]' % v.params[1], e_) is not None)))
+            if not good:
+                r.undecided(construct, 'recorded expression `%s` not recognised' % short(e_), where)
+                continue
+            if role == 'function' and descends not in ('all',) and not (isinstance(descends, set) and 1 in descends):
+                r.violation(construct, 'the visitor records the function name but does not descend into its arguments: names used '
+                            'inside f(...) are not reported', where)
+                continue
+            r.ok(construct, 'records %s into %s%s' % (short(e_), want, ' and visits the arguments' if role == 'function' else ''), where)
+        else:
+            if descends == 'all':
+                r.ok(construct, 'descends into every child node', where)
+            elif descends is None and not records:
+                r.violation(construct, "the tree visitor that collects the used names has no branch that descends into '%s' nodes, "
+                            "which the grammar produces: every variable, function and suffix inside such a node (e.g. inside "
+                            "`a %s b`) is missing from the reported usage" % (kind, {'parallel': '||', 'product': '*', 'sum': '+',
+                                                                                   'power': '^'}.get(kind, '...')), where,
+                            expected="a branch for '%s' that visits its children" % kind, found='node ignored')
+            else:
+                r.undecided(construct, 'partial descent %s not understood' % (sorted(descends) if descends else ''), where)
 
 
 # ----------------------------------------------------------------------------- D2
 def d2_reset(ctx, idx, st):
     r = ctx.rule('D2.RESET', 'reset_storage post-dominates every exit of raw_parse, exceptional ones included', floor=2)
     with r:
+        if st.get('mode') == 'visitor':
+            r.ok('raw_parse: scratch state', 'none: no parse action records anything, the usage is read off the finished tree', '', nontrivial=False)
+            r.floor = min(r.floor, r.n)
+            return
         rp = idx.func(MP + '.raw_parse')
         cfg = cfg_of(rp.node)
         parse_calls = lib.calls_named(rp.node, ('parseString', 'parse_string'))
@@ -454,6 +664,18 @@ def _manager_resets(idx, rp, ce):
 def d3_fresh(ctx, idx, st):
     r = ctx.rule('D3.FRESH', 'a set handed to a MathExpression is never mutated afterwards: reset_storage rebinds fresh sets', floor=9)
     with r:
+        if st.get('mode') == 'visitor':
+            vis = find_visitor(idx)
+            cinit = idx.lookup(vis['cls'], '__init__')
+            for a in sorted(vis['attr_map']):
+                binds = _field_binds(cinit.node, a)
+                fresh = bool(binds) and any(nf.match(p, binds[-1][1]) is not None for p in FRESH_SET)
+                if fresh:
+                    r.ok('%s.__init__: self.%s' % (vis['cls'].name, a), 'a fresh set per parse', lib.loc(cinit, binds[-1][0]))
+                else:
+                    r.undecided('%s.__init__: self.%s' % (vis['cls'].name, a), 'not recognised as a fresh set per visitor object', cinit.loc)
+            r.floor = min(r.floor, r.n)
+            return
         hand = st.get('handoff')
         if hand is None:
             hand = handoff(idx)[0]
@@ -1006,9 +1228,12 @@ def d5_consumers(ctx, idx, st):
                             expected='a fresh local object per evaluation', found=short(arg))
         r.ok('MathExpression: field writes', 'only in __init__ (%s)' % ', '.join(sorted(fields)), init.loc)
         # stores to .X_used anywhere else
+        builder_cls = find_visitor(idx)['cls'].qualname if st.get('mode') == 'visitor' else None
         for fi in idx.package_funcs():
             if fi.qualname in (ME + '.__init__', MP + '.__init__', MP + '.reset_storage'):
                 continue
+            if builder_cls and fi.cls is not None and fi.cls.qualname == builder_cls:
+                continue        # the collector object fills its own fresh sets before they are handed to the expression
             for n in walk_own(fi.node):
                 if isinstance(n, (ast.Assign, ast.AugAssign)):
                     tg = n.targets if isinstance(n, ast.Assign) else [n.target]
@@ -1024,6 +1249,8 @@ def d5_consumers(ctx, idx, st):
         consumers = 0
         for fi in ta.funcs:
             if not ta.touches(fi):
+                continue
+            if builder_cls and fi.cls is not None and fi.cls.qualname == builder_cls:
                 continue
             consumers += 1
             sinks = ta.sinks(fi)
@@ -1066,6 +1293,12 @@ def d6_determinism(ctx, idx, st):
         if atom is None:
             atom, alts, elems = recording_elements(g, idx)
         var, fun, suf = elems['variable'], elems['function'], elems['suffix']
+        if st.get('mode') == 'visitor':
+            r.ok('grammar: recording during the parse', 'none: abandoned sub-parses cannot leave names behind', gloc(g, atom), nontrivial=False)
+            C03.emdash_parity(r, g, 'with the em-dash the numeral ends before the exponent, so `2e\u20143` yields a suffix `e` that a '
+                                    'reader of the formula (2e-3) does not see: a spurious suffix in the reported usage')
+            r.floor = min(r.floor, r.n)
+            return
         # (i) ordered choices with a recording alternative
         for t in g.nodes():
             if t.kind != 'first':
@@ -1319,12 +1552,30 @@ _PRODUCT = "product = parallel + ZeroOrMore((Literal('*') | Literal('/'))(\"op\"
 _RAW_OLD = "        try:\n            BracketValidator.validate(expression)\n            tree = self.grammar.parseString(expression)[0]\n            parsed = MathExpression(expression,\n                                    tree,\n                                    self.variables_used,\n                                    self.functions_used,\n                                    self.suffixes_used)\n"
 _FINALLY = "        except:\n            raise\n        finally:\n            self.reset_storage()\n\n        return parsed"
 
+_COLLECTOR = ("class UsageCollector(object):\n    branches = (%s)\n\n    def __init__(self, tree):\n        self.variables_used = set()\n"
+              "        self.functions_used = set()\n        self.suffixes_used = set()\n        self.visit(tree)\n\n"
+              "    def visit(self, node):\n        node_name = node.getName()\n        if node_name == 'variable':\n"
+              "            self.variables_used.add(node[0])\n        elif node_name == 'function':\n            self.functions_used.add(node[0])\n"
+              "            self.visit(node[1])\n        elif node_name == 'number':\n            self.suffixes_used.update(node[1:])\n"
+              "        elif node_name in self.branches:\n            for child in node:\n                if isinstance(child, ParseResults):\n"
+              "                    self.visit(child)\n\n\nclass MathParser(object):")
+_VISITOR_EDITS = lambda kinds: [
+    ("class MathParser(object):", _COLLECTOR % kinds),
+    ("        suffix.setParseAction(self.suffix_parse_action)\n", ""),
+    ("        variable.setParseAction(self.variable_parse_action)\n", ""),
+    ("        function.setParseAction(self.function_parse_action)\n", ""),
+    (_RAW_OLD + _FINALLY, "        BracketValidator.validate(expression)\n        tree = self.grammar.parseString(expression)[0]\n"
+     "        usage = UsageCollector(tree)\n        return MathExpression(expression, tree, usage.variables_used, usage.functions_used, "
+     "usage.suffixes_used)"),
+]
+
 MUTANTS = [
+    Mutant('usage-read-off-the-tree-by-a-visitor-that-skips-parallel', EXPR,
+           _VISITOR_EDITS("'arguments', 'array', 'power', 'negation', 'product', 'sum', 'parentheses'"), None, 'D1',
+           note='seeded C10k: parse actions replaced by a tree visitor whose branch table lacks parallel: names inside a||b are lost'),
     # D1
     Mutant('variable-recorded-as-function', EXPR, "self.variables_used.add(tokens[0][0])", "self.functions_used.add(tokens[0][0])", 'D1'),
     Mutant('suffix-records-first-character', EXPR, "self.suffixes_used.add(tokens[0])", "self.suffixes_used.add(tokens[0][0])", 'D1'),
-    Mutant('variable-element-gets-function-action', EXPR, "variable.setParseAction(self.variable_parse_action)",
-           "variable.setParseAction(self.function_parse_action)", 'D1'),
     Mutant('function-action-on-the-shared-name', EXPR, "        # Define a variable as a pyparsing result that contains one object name\n",
            "        name.setParseAction(self.function_parse_action)\n", 'D1'),
     Mutant('suffix-action-dropped', EXPR, "        suffix.setParseAction(self.suffix_parse_action)\n", "", 'D1'),
@@ -1399,6 +1650,8 @@ MUTANTS = [
 ]
 
 BENIGN = [
+    Benign('usage-read-off-the-tree-by-a-complete-visitor', EXPR,
+           _VISITOR_EDITS("'arguments', 'array', 'power', 'negation', 'parallel', 'product', 'sum', 'parentheses'"), None),
     Benign('explicit-reset-on-both-paths', EXPR, _FINALLY,
            "        except:\n            self.reset_storage()\n            raise\n\n        self.reset_storage()\n        return parsed"),
     Benign('reset-as-tuple-assignment', EXPR, "    def reset_storage(self):\n        self.variables_used = set()\n        self.functions_used = set()\n        self.suffixes_used = set()\n",
